@@ -11,7 +11,7 @@ for p in sorted(glob.glob(os.path.join(V, "seeded", "*", "meta.json"))):
     r = subprocess.run([sys.executable, os.path.join(V, "tools", "seeded.py"), m["name"], m["property"]] + checks[:1], stdout=subprocess.PIPE, stderr=subprocess.STDOUT)
     out = r.stdout.decode()
     m2 = json.load(open(p))
-    ok = bool(m2.get("caught_by")) and m2.get("confirmed")
+    ok = bool(m2.get("caught_by")) and (m2.get("confirmed") or m2.get("confirmed_on_base"))
     print("%s: %s %s" % (m["name"], "caught" if ok else "MISSED", [(c, v["signatures"][:2]) for c, v in m2.get("checks", {}).items()]), flush=True)
     if not ok:
         missed.append(m["name"])
